@@ -1152,14 +1152,19 @@ func c27Run(rt *rapid.T, rec *vstat.Rec, env *c27Env, c c27Case) {
 		// schema around this request: events committed after the (single)
 		// schema change must carry the new column names
 		ddlClass, ddlSeen, dmlBeforeDDL := "", false, false
-		ddlSameTx, open := req.Tx, false // open: inside an explicit transaction or savepoint
+		ddlSameTx, inBegin, inSavepoint := req.Tx, false, false
 		for _, s := range req.Stmts {
 			switch s.Class {
-			case "begin", "savepoint":
-				open = true
-			case "commit", "rollback", "release":
-				open = false
+			case "begin":
+				inBegin = true
+			case "savepoint":
+				inSavepoint = true
+			case "release":
+				inSavepoint = false // an enclosing BEGIN stays open
+			case "commit", "rollback":
+				inBegin, inSavepoint = false, false
 			}
+			open := inBegin || inSavepoint // inside an explicit transaction or savepoint
 			switch {
 			case c27IsDDL(s.Class):
 				ddlClass, ddlSeen = s.Class, true
